@@ -755,14 +755,16 @@ struct SrcWorld {
     std::vector<std::string> hid, hlabel; // holders: a0, a0b, t0, m0
     std::vector<HKind> hkind;
     std::vector<std::function<void(const Source &, bool)>> hset; // add / remove
+    std::vector<std::function<std::vector<Source>()>> hget;     // the holder's own view of its sources: sources() and getSource(id) of each
     std::map<std::string, std::string> label;
 
     template <class E> void add_holder(HKind k, const std::string &lab, E e) {
         hkind.push_back(k); hlabel.push_back(lab); hid.push_back(e.id()); label[e.id()] = lab;
         hset.push_back([e](const Source &s, bool add) mutable { if (add) e.addSource(s); else e.removeSource(s); });
+        hget.push_back([e]() { std::vector<Source> r = e.sources(); size_t n = r.size(); for (size_t i = 0; i < n; i++) r.push_back(e.getSource(r[i].id())); return r; });
     }
     void attach_holders() {
-        hid.clear(); hlabel.clear(); hkind.clear(); hset.clear();
+        hid.clear(); hlabel.clear(); hkind.clear(); hset.clear(); hget.clear();
         b0 = f.getBlock("blk");
         add_holder(HArray, "array a0", b0.getDataArray("a0"));
         add_holder(HArray, "array a0b", b0.getDataArray("a0b"));
@@ -815,6 +817,18 @@ static void check_src_refs(const std::string &phase, const char *hk, SrcWorld &w
     }
     Handles<SrcK> h; h.cont = w.b0; h.node = nodes;
     check_parent_sources(phase, hk, w.m, h);
+    // the same questions asked through the Source handles the HOLDERS hand out (array.sources(), tag.getSource(id), ...)
+    for (size_t hi = 0; hi < w.hget.size(); hi++) {
+        std::vector<Source> via; std::string ew;
+        std::string exc = vf::guarded([&] { via = w.hget[hi](); }, &ew);
+        if (!exc.empty()) continue;    // what a holder shows of its sources is C02/C04 matter
+        Handles<SrcK> hv; hv.cont = w.b0; hv.node = nodes;
+        Model mv = w.m;
+        std::vector<bool> have(mv.size(), false);
+        for (const Source &s : via) { if (!s) continue; auto it = mv.byid.find(s.id()); if (it == mv.byid.end()) continue; hv.node[it->second] = s; have[it->second] = true; }
+        for (size_t v = 0; v < mv.size(); v++) if (!have[v]) mv.alive[v] = false;     // only the nodes this holder handed out are asked
+        check_parent_sources(phase, "handed out by a holder (sources() / getSource(id) of an array, tag or multi-tag)", mv, hv);
+    }
 }
 
 static void src_eval_assignment(SrcWorld &w, const std::set<std::pair<int, int>> &links, const std::string &master, const std::string &copy) {
